@@ -336,6 +336,13 @@ class E3:
                 self.rec("C03", "%s:eviction-necessity@%s" % (name, chain), False, "eviction site reached with untracked cache fields", info["loc"])
                 continue
             if name == "insert":
+                self.rec("C03", "%s:dedupe-before-eviction@%s" % (name, chain), bool(ip.gset(st, "keyed_removal_done")),
+                         "in insert the entry stored under the same key has been taken out (its size freed) before anything is evicted", info["loc"])
+            if name == "mutate":
+                pend = ip.gset(st, "pending")
+                self.rec("C03", "%s:promote-before-eviction@%s" % (name, chain), not pend,
+                         "in mutate the mutated entry has been made most-recently-used before anything is evicted (it cannot evict itself)", info["loc"])
+            if name == "insert":
                 size = self.incoming_size(ip, st, arg_vals)
                 if size is None:
                     self.rec("C03", "%s:eviction-necessity@%s" % (name, chain), False, "cannot identify the incoming entry's size", info["loc"])
@@ -723,7 +730,11 @@ def apply(ctx, res, prop, floor=None):
             # the interpreter gave up on an entry point: every property that relies on it fails closed
             res.violate("E3:" + rec["key"], rec["desc"], rec["loc"], {}, "E3 abstract interpreter")
             continue
-        if rec["prop"] != prop and not (prop == "C02" and rec["prop"] == "C16" and rec["key"].endswith(":CS=G")):
+        shared = (prop == "C02" and rec["prop"] == "C16" and rec["key"].endswith(":CS=G")) or \
+                 (prop == "C07" and rec["prop"] == "C16" and (rec["key"].endswith(":no-link-into-unowned-table") or
+                                                              rec["key"].endswith(":table-not-detached") or rec["key"].endswith(":no-unlinked-entry"))) or \
+                 (prop == "C11" and rec["prop"] == "C03" and rec["key"].startswith("mutate:"))
+        if rec["prop"] != prop and not shared:
             continue
         n += 1
         res.count("%s E3 obligations" % prop)
